@@ -278,11 +278,17 @@ func (g *gen) preTree(c *Case, depth int) Expr {
 func (g *gen) NewCase(id int, thorough bool) *Case {
 	c := &Case{ID: id}
 	nrows := 1 + g.pick(5)
+	// scan-state shape: many rows scanned one after the other by one worker (one flush group, one partition, one block),
+	// queried with multi-leaf trees - whatever a row's evaluation leaves behind meets the next row
+	scanState := g.pick(7) == 0
+	if scanState {
+		nrows = 8 + g.pick(7)
+	}
 	c.Tok = "ws"
 	if g.pick(4) == 0 {
 		c.Tok = "whole"
 	}
-	c.PartOn = g.pick(3) != 0
+	c.PartOn = g.pick(3) != 0 && !scanState
 	switch g.pick(4) {
 	case 0:
 		c.MMIdx = []string{}
@@ -292,6 +298,9 @@ func (g *gen) NewCase(id int, thorough bool) *Case {
 		c.MMIdx = []string{"k1", "k2"}
 	}
 	groups := 1 + g.pick(3)
+	if scanState {
+		groups = 1
+	}
 	for i := 0; i < nrows; i++ {
 		r := Row{Doc: 1 + g.pick(len(g.cat.Docs)), ID: fmt.Sprintf("r%d", i+1), Copies: 1, Vals: map[string]int{"k1": -1, "k2": -1}}
 		if c.PartOn && g.pick(4) != 0 {
@@ -320,6 +329,19 @@ func (g *gen) NewCase(id int, thorough bool) *Case {
 	if g.pick(2) == 0 {
 		c.Q.Pre = g.preTree(c, 2)
 	}
+	if scanState {
+		c.Merges = 0
+		c.Q.Pre = node("nil")
+		// a regex tree with at least two condition leaves under one operator (and, half of the time, no bloom part)
+		t := node([]string{"or", "or", "and"}[g.pick(3)])
+		for i := 0; i < 2+g.pick(2); i++ {
+			t.C = append(t.C, g.regexLeaf(c, false))
+		}
+		c.Q.Regex = t
+		if g.pick(2) == 0 {
+			c.Q.Bloom = node("nil")
+		}
+	}
 	d := &c.Dims
 	d.Compression = []string{"none", "snappy", "zstd", ""}[g.pick(4)]
 	d.ZstdLevel = []int{1, 2, 3, 4}[g.pick(4)] // klauspost speed levels; see DESIGN 8 on levels 5..22
@@ -338,6 +360,9 @@ func (g *gen) NewCase(id int, thorough bool) *Case {
 		d.Batch = 150 + g.pick(200)
 	} else if g.pick(25) == 0 {
 		d.Batch = 70 + g.pick(60)
+	}
+	if scanState {
+		d.MRGRows, d.MBRows, d.Batch = 1000, 1000, 0
 	}
 	if d.Batch > 0 {
 		// many copies of one row: results larger than a delivery batch, several batches per block
